@@ -726,7 +726,14 @@ Definition step_acc (a : acc) (o : json) : acc :=
             then (true, [])
             else
             if match jget "ttl_mismatch" obs with Some _ => true | None => false end
-            then (true, filter (fun k => String.eqb k "D7") (kf_of sy0 o))
+            then (true, (filter (fun k => String.eqb k "D7") (kf_of sy0 o) ++
+                         (* D10 (sheens matcher, dependency): a variable that occurs twice and lands on an
+                            array or map is re-matched in Go's map order - the three Systems may then answer
+                            one search differently for a reason outside the cache *)
+                         (if String.eqb (jfS "op" o) "search" &&
+                             (let vs := pvars (jnorm (jget_d "pattern" o)) in
+                              existsb (fun v => (2 <=? count_str v vs)%nat) vs)
+                          then ["D10"] else []))%list)
                  (* C17: the three cache TTLs gave different answers to the same request (D7: whether the index
                     refuses an unsortable event depends on which keys its trie still has nodes for) *)
             else if match jget "ttl_mismatch_d42" obs with Some _ => true | None => false end
